@@ -6,9 +6,13 @@ C30  Timed-out actions are killed with all their children.
 Level: proof on the model (`Model/Exec.lean`), **partial** — the kernel (signal delivery to a process group),
 real time and scheduling latency, and pipe inheritance are assumptions of the model, not verified.
 
-Proved for every execution of the supervisor/process-group transition system, whatever the processes do
+Proved for every execution *of the model* (zero supervisor latency: its timers and channel receives are served
+the instant they are due; a tie between "Wait returned" and "deadline" is resolved for the former, whereas Go's
+`select` picks either) of the supervisor/process-group transition system, whatever the processes do
 (ignore SIGTERM, fork, hold or close pipes, exit at any moment, even leave the group):
-  * `C30_timeout_bound`  — the action is reported no later than deadline + 30 ms + 1 s;
+  * `C30_timeout_bound`  — the action is reported no later than deadline + 30 ms + 1 s (the sum of the two
+    extracted waits: the bound is about the supervisor's structure, not about scheduling);
+  * `C30_overrun_is_timeout` — a command still running after its deadline is reported as timed out, never as finished;
   * `C30_group_dead_after_timeout` — after a timed-out return no member of the process group is alive, and none
     can appear later.
 False on the pinned code (`C30_normal_exit_witness`): when the command finishes by itself nothing signals
@@ -19,7 +23,8 @@ namespace PlzVerif.Props.C30
 open PlzVerif.Exec
 
 /-- The regenerated timing of `killProcess`. -/
-def tm : Timing := ⟨Generated.C30.termWaitMs, Generated.C30.killWaitMs⟩
+def tm : Timing :=
+  ⟨Generated.C30.termWaitMs, Generated.C30.killWaitMs, Generated.C30.secondRoundAlways, Generated.C30.killsGroup⟩
 
 /-- Side condition on the regenerated facts: SIGTERM then SIGKILL, both sent to the *negative* pid (the
     group), the second round is not skipped when the first succeeded, the command is started in its own
@@ -33,9 +38,32 @@ def FactsOK : Bool :=
 
 theorem C30_facts_ok : FactsOK = true := by decide
 
+/-- Canonical skeletons (parameters/receiver by position, locals by declaration order, messages blanked; compared by
+    SHA-256 prefix, the texts are comments in Generated/C30.lean and Expected/C30.lean) of every function the model
+    transcribes: any change of structure, operator, constant, call or statement order flips this. -/
+def expectedSkeletons : List (String × String) :=
+  [ ("skelExecTail", "f74bcb32d39662302e2306ce"),
+    ("skelKillProcess", "6a294cfd14bbeb170da37bfa"),
+    ("skelSendSignal", "97b85005a7072dca44ca96ed"),
+    ("skelRunCommand", "ece69639c4827fb8fd1c00f4") ]
+
+def generatedSkeletons : List (String × String) :=
+  [ ("skelExecTail", Generated.C30.skelExecTail), ("skelKillProcess", Generated.C30.skelKillProcess), ("skelSendSignal", Generated.C30.skelSendSignal), ("skelRunCommand", Generated.C30.skelRunCommand) ]
+
+def SkeletonsOK : Bool := generatedSkeletons == expectedSkeletons
+
+theorem C30_skeletons_ok : SkeletonsOK = true := by decide
+
+
+/-- The two facts the "group dead" theorems rest on, as extracted: the SIGKILL round always runs and signals go
+    to the whole group.  (`C30_control_*` below show that each is needed.) -/
+theorem C30_facts_good : Good tm := by
+  unfold Good
+  decide
+
 /-- Every reachable state satisfies the invariant, and the deadline never changes. -/
 theorem C30_invariant (d : Nat) (ign : Bool) (s : St) (h : Reach tm (init d ign) s) : Exec.Inv tm s ∧ s.deadline = d :=
-  inv_reach (inv_init tm d ign) h
+  inv_reach C30_facts_good (inv_init tm d ign) h
 
 /-- **Bound.**  In every execution the clock cannot pass `deadline + termWait + killWait` before the
     supervisor has returned: a command that exceeds its timeout is reported within that bound. -/
@@ -85,7 +113,22 @@ theorem C30_normal_exit_partial (d : Nat) (ign : Bool) (s : St) (t : Nat) (h : R
   obtain ⟨hi, _⟩ := C30_invariant d ign s h
   unfold Exec.Inv at hi
   simp only [hp] at hi
-  exact hi
+  exact hi.2
+
+/-- A normal (not timed-out) report can only happen up to the deadline … -/
+theorem C30_normal_return_by_deadline (d : Nat) (ign : Bool) (s : St) (t : Nat) (h : Reach tm (init d ign) s)
+    (hp : s.phase = .returned false t) : t ≤ d := by
+  obtain ⟨hi, hd⟩ := C30_invariant d ign s h
+  unfold Exec.Inv at hi
+  simp only [hp] at hi
+  omega
+
+/-- … so **a command that runs past its deadline is reported as timed out** (never as finished normally). -/
+theorem C30_overrun_is_timeout (d : Nat) (ign : Bool) (s : St) (b : Bool) (t : Nat) (h : Reach tm (init d ign) s)
+    (hp : s.phase = .returned b t) (hlate : d < t) : b = true := by
+  cases b with
+  | true => rfl
+  | false => have := C30_normal_return_by_deadline d ign s t h hp; omega
 
 /-- Witness (`sleep N >/dev/null 2>&1 & exit 0`): the leader forks a child, the child redirects its output,
     the leader exits; `cmd.Wait()` returns, the action is reported finished at time 0 — and the child, still a
@@ -114,6 +157,47 @@ theorem C30_no_survivors_fails :
   obtain ⟨s, hr, hp, p, hm, ha, hg⟩ := C30_normal_exit_witness
   have := h s false 0 hr hp p hm hg
   simp [ha] at this
+
+/-! ### negative controls: the two facts are needed -/
+
+/-- The state after: fork a child, the child gives up the pipes and starts ignoring SIGTERM. -/
+def controlStart : St :=
+  { init 0 false with others := [⟨true, true, false, true⟩] }
+
+theorem controlStart_reach (tm' : Timing) : Reach tm' (init 0 false) controlStart := by
+  let s0 := init 0 false
+  let child : Proc := ⟨true, true, true, false⟩
+  let c1 : Proc := { child with holdsPipe := false }
+  let s1 : St := { s0 with others := s0.others ++ [child] }
+  let s2 : St := { s1 with others := [] ++ c1 :: [] }
+  have r1 : Step tm' s0 s1 := Step.fork child (by simp [s0, init, St.procs, child]) rfl
+  have r2 : Step tm' s1 s2 := Step.other [] [] child _ (by simp [s1, s0, init]) (ProcStep.closePipe child rfl)
+  have r3 : Step tm' s2 controlStart := Step.other [] [] c1 _ (by simp [s2]) (ProcStep.ignoreTerm c1 rfl)
+  exact Reach.step (Reach.step (Reach.step (Reach.refl _) r1) r2) r3
+
+/-- Were the SIGKILL round skipped after a successful SIGTERM round (`if !success && !sendSignal(KILL…)`), a
+    SIGTERM-ignoring child that gave up the pipes would outlive a *timed-out* action: the fact
+    `secondRoundAlways` is needed for `C30_group_dead_after_timeout`. -/
+theorem C30_control_kill_round_skipped :
+    ∃ s, Reach { tm with killAlways := false } (init 0 false) s ∧ s.phase = .returned true 0 ∧
+      ∃ p ∈ s.procs, p.alive = true ∧ p.inGroup = true := by
+  let tm' : Timing := { tm with killAlways := false }
+  -- deadline 0 is due: SIGTERM kills the leader only; Wait has returned, the SIGKILL round is skipped
+  have h1 : sup tm' controlStart = some (supOpt tm' controlStart) := by decide
+  have h2 : sup tm' (supOpt tm' controlStart) = some (supOpt tm' (supOpt tm' controlStart)) := by decide
+  refine ⟨supOpt tm' (supOpt tm' controlStart), ?_, by decide, ⟨⟨true, true, false, true⟩, by decide, rfl, rfl⟩⟩
+  exact Reach.step (Reach.step (controlStart_reach tm') (Step.sup h1)) (Step.sup h2)
+
+/-- Were the signals sent to the leader's pid instead of the negated pid, a background child would be alive
+    after SIGKILL went out: the fact `killsGroup` is needed for `C30_group_dead_after_kill`. -/
+theorem C30_control_leader_only :
+    ∃ s t, Reach { tm with killsGroup := false } (init 0 false) s ∧ s.phase = .killSent t ∧
+      ∃ p ∈ s.procs, p.alive = true ∧ p.inGroup = true := by
+  let tm' : Timing := { tm with killsGroup := false }
+  have h1 : sup tm' controlStart = some (supOpt tm' controlStart) := by decide
+  have h2 : sup tm' (supOpt tm' controlStart) = some (supOpt tm' (supOpt tm' controlStart)) := by decide
+  refine ⟨supOpt tm' (supOpt tm' controlStart), 0, ?_, by decide, ⟨⟨true, true, false, true⟩, by decide, rfl, rfl⟩⟩
+  exact Reach.step (Reach.step (controlStart_reach tm') (Step.sup h1)) (Step.sup h2)
 
 /-! ### the executable run used by the correspondence -/
 
